@@ -48,6 +48,8 @@ class ExprMixin:
         if real in src.funcs:
             fn, path = src.funcs[real]
             return SV('func', FuncVal(node=fn, name=real, module=path))
+        if real in B.SPEC_BUILTINS:
+            return SV('func', FuncVal(builtin=real, name=real))
         if real in self.spec_funcs:
             return SV('func', FuncVal(node=self.spec_funcs[real], name=real, module='<spec>'))
         node = src.modconsts.get((module, real)) or src.modconsts.get(('*', real))
